@@ -11,10 +11,13 @@ decision written from the property statement with its own address parser (socket
                         127.0.0.0/8, ::1 in any spelling, ::ffff:127.x.y.z -- while the listener is bound to a loopback
                         or wildcard address, or
                     (c) a wildcard address (0.0.0.0, ::) while the listener is bound to a loopback or wildcard address;
+                    loopback / wildcard include the legacy inet_aton spellings the OS resolver accepts for the same
+                    addresses (127.1, 0x7f.0.0.1, 0177.0.0.1, 2130706433, 0, 0.0): the host string is handed to
+                    getaddrinfo, so such a destination denotes the same socket;
   MUST NOT be refused  no listener has the same port+transport, or the host is a public name / non-local address that
                     equals no listen address;
   undecided         everything else (loopback destination while listening on one specific non-loopback interface,
-                    inet_aton short forms such as 127.1, names like localhost.localdomain, IPv4-mapped forms of a
+                    names like localhost.localdomain / *.localhost, IPv4-mapped forms of a
                     specific listen address): only totality is required.
 
 Runtime leg (real listeners, histories): a real ``Proxyserver`` with real loopback/wildcard sockets goes through a random
@@ -23,7 +26,10 @@ concurrent task keeps calling ``server_connect`` (every tick / every other tick 
 all) exactly as connection handlers do while the proxy is serving traffic.  After every step the same reference decision is
 applied to a sweep of spellings against every listener the *history* says is running and an OS-level probe (bind ->
 EADDRINUSE) confirms is listening -- never against what ``listen_addrs`` reports -- and against the ports of listeners that
-were stopped (must not be refused any more).
+were stopped (must not be refused any more).  A second, OS-level ground truth is taken after every step: this process's own
+listening TCP sockets according to /proc (inode match), so a socket mitmproxy still owns but no longer reports in
+``listen_addrs`` is judged as well; about half of the histories end with a tcp+udp listener (dns / reverse:dns) whose UDP port
+the harness occupies, so that its start fails half-way.
 
 Repeated-attempt leg (real ConnectionHandler): for every spelling x listener shape x listener mode x transport the SAME
 ``Server`` object is requested 3 times through the real ``ConnectionHandler`` -- (1) a probe layer re-issues the blocking
@@ -35,6 +41,7 @@ complete with the destination-unknown error and no later attempt may complete su
 """
 import asyncio
 import errno
+import os
 import itertools
 import logging
 import re
@@ -58,15 +65,18 @@ TECHNIQUE = "enumeration of destination spellings x listener configurations agai
 BUDGET = {"quick": (4_000, 14), "thorough": (300_000, 120)}
 WORKERS = {"quick": 2, "thorough": 16}
 REQUIRED = ["must_refuse", "must_not_refuse", "refused_some", "accepted_some", "undecided_total_only",
-            "runtime.histories", "runtime.concurrent_vets", "runtime.must_refuse", "runtime.must_not_refuse", "runtime.confirmed_listeners",
+            "runtime.histories", "runtime.concurrent_vets", "runtime.must_refuse", "runtime.must_not_refuse", "runtime.confirmed_listeners", "runtime.os_inventory_checks", "runtime.udp_blocked_start_steps", "multi_listener_same_port",
             "repeat_attempt_same_server", "repeat.first_attempt_refused", "repeat.no_dial_for_self_address", "repeat.non_self_dialled"]
 RULE = (
-    "case = (destination host spelling, destination port, transport, listener set); all fixed spellings (localhost in 8 "
+    "case = (destination host spelling, destination port, transport, listener set); all fixed spellings (11 inet_aton spellings of "
+    "loopback, 5 of the wildcard address, 4 of public addresses; localhost in 8 "
     "case/dot variants, 12 addresses of 127/8 incl. block edges, 6 spellings of ::1, 4 IPv4-mapped loopbacks, 0.0.0.0, ::, "
     "listen-address echoes, public names/addresses, undecided oddities) x 11 listen-address configurations x 5 listener modes "
     "(tcp, udp, both) x same/different port x tcp/udp are enumerated in both tiers; random cases add random 127/8 and "
     "mapped addresses, random case patterns and multi-listener sets; distinct = (host spelling class, listen config, listener "
-    "transport, connection transport, port relation); non-trivial = same port and same transport (the host spelling decides). "
+    "transport, connection transport, port relation); non-trivial = same port and same transport (the host spelling decides); "
+    "two listeners sharing a port number on different addresses (7 x 6 ordered address pairs x 4 mode pairs x 13 destinations x "
+    "tcp/udp) are enumerated as well. "
     "Runtime histories (about 1% of the random cases in quick): 2-4 real listeners (9 mode templates x 127.0.0.1/::1/all/localhost, "
     "harness-chosen free ports), 2-6 update steps (add/remove/restart) each under a vetting policy (every tick, alternate, on "
     "servers.changed, none), sweep of 14+ spellings x tcp/udp per running and per stopped listener after every step; distinct = "
@@ -105,7 +115,14 @@ def parse_ip(host: str):
     try:
         n = int.from_bytes(socket.inet_pton(socket.AF_INET6, host), "big")
     except (OSError, ValueError):
-        return None
+        # Legacy inet_aton spellings (127.1, 0x7f.0.0.1, 0177.0.0.1, 2130706433, 0, ...): mitmproxy hands the host string to
+        # asyncio.open_connection / the OS resolver, which accepts them. Ask the OS what the literal denotes -- numeric
+        # resolution only (AI_NUMERICHOST), never DNS.
+        try:
+            infos = socket.getaddrinfo(host, None, family=socket.AF_INET, type=socket.SOCK_STREAM, flags=socket.AI_NUMERICHOST)
+        except (OSError, UnicodeError, ValueError):
+            return None
+        return 4, int.from_bytes(socket.inet_pton(socket.AF_INET, infos[0][4][0]), "big")
     if n >> 32 == 0xFFFF:
         return 4, n & 0xFFFFFFFF
     return 6, n
@@ -128,7 +145,7 @@ def host_class(host: str):
         return "loopback", ip
     if n == 0:
         # ::ffff:0.0.0.0 folds to (4, 0) but is not "the wildcard address itself": undecided
-        return ("wildcard", ip) if (ver == 6 or host == "0.0.0.0") else ("odd", ip)
+        return ("wildcard", ip) if "ffff" not in host.lower() else ("odd", ip)
     return "addr", ip
 
 
@@ -165,11 +182,16 @@ V6_LOOPBACKS = ["::1", "0:0:0:0:0:0:0:1", "::0001", "0000:0000:0000:0000:0000:00
 MAPPED_LOOPBACKS = ["::ffff:127.0.0.1", "::ffff:7f00:1", "::FFFF:127.0.0.2", "0:0:0:0:0:ffff:127.255.255.255"]
 WILDCARDS = ["0.0.0.0", "::", "0:0:0:0:0:0:0:0", "::0"]
 PUBLIC = ["example.com", "mitmproxy.org.", "8.8.8.8", "192.0.2.77", "2001:db8::77", "128.0.0.1", "126.255.255.255", "::2", "10.1.2.3"]
-ODD = ["127.1", "0x7f.0.0.1", "2130706433", "localhost.localdomain", "ip6-localhost", "::ffff:0.0.0.0", "::1%lo", "foo.localhost", "0"]
+ATON_LOOPBACKS = ["127.1", "127.0.1", "0177.0.0.1", "0x7f.0.0.1", "0x7f000001", "2130706433", "017700000001", "127.000.000.001",
+                  "127.0.0.01", "127.0xffffff", "0x7F.1"]
+ATON_WILDCARDS = ["0", "0.0", "0x0", "00.0.0.0", "0.0.0"]
+ATON_PUBLIC = ["8.8.2056", "134744072", "0127.0.0.1", "0x8.8.8.8"]  # 0127 is octal 87: not a loopback address
+ODD = ["localhost.localdomain", "ip6-localhost", "::ffff:0.0.0.0", "::1%lo", "foo.localhost", "127.0.0.1.", "::ffff:127.1", "1.2.3.4 x"]
 SPELLINGS = (
     [("localhost-name", h) for h in LOCALHOST_NAMES] + [("v4-loopback", h) for h in V4_LOOPBACKS] + [("v6-loopback", h) for h in V6_LOOPBACKS]
     + [("mapped-loopback", h) for h in MAPPED_LOOPBACKS] + [("wildcard", h) for h in WILDCARDS] + [("public", h) for h in PUBLIC]
-    + [("odd", h) for h in ODD]
+    + [("odd", h) for h in ODD] + [("aton-loopback", h) for h in ATON_LOOPBACKS] + [("aton-wildcard", h) for h in ATON_WILDCARDS]
+    + [("public", h) for h in ATON_PUBLIC]
 )
 
 # listen host option -> getsockname()-shaped tuples (port filled in later)
@@ -206,6 +228,9 @@ def mk_addrs(shape, port):
 MODES = {m: mode_specs.ProxyMode.parse(m) for m in LISTENER_MODES}
 
 
+ATON_MECH = "inet-aton-spelling-of-loopback-or-wildcard"
+
+
 def classify(hclass, host, listeners, transport, port):
     """Mechanism from the input only: which feature of (host spelling, matching listeners) the refusal would depend on."""
     hc, hip = host_class(host)
@@ -215,6 +240,8 @@ def classify(hclass, host, listeners, transport, port):
             matching.append((lhost, ltrans))
     if not matching:
         return None
+    if hclass in ("aton-loopback", "aton-wildcard"):
+        return ATON_MECH
     if all(lt == "both" for _, lt in matching):
         return "listener-transport-both"
     same_transport = [lh for lh, lt in matching if lt == transport]
@@ -243,7 +270,7 @@ def vet(ps, host, port, transport):
     return server.error
 
 
-def judge(ctx, ps, hclass, host, port, transport, listeners, pfx="", extra=None):
+def judge(ctx, ps, hclass, host, port, transport, listeners, pfx="", extra=None, mech=None):
     """Call the real hook on ps and compare with the reference decision for the ground-truth listeners."""
     wit = {"host": host, "port": port, "transport": transport, "listeners": listeners, **(extra or {})}
     ctx.count(pfx + "total")
@@ -261,7 +288,7 @@ def judge(ctx, ps, hclass, host, port, transport, listeners, pfx="", extra=None)
         ctx.count(pfx + "must_refuse")
         if not refused:
             ctx.violation(pfx + "self-connect-not-refused", wit,
-                          mechanism=classify(hclass, host, listeners, transport, port) if not pfx else None)
+                          mechanism=classify(hclass, host, listeners, transport, port) if (not pfx or hclass.startswith("aton-")) else mech)
     elif exp is False:
         ctx.count(pfx + "must_not_refuse")
         if refused:
@@ -315,6 +342,35 @@ def os_listening(host: str, port: int, transport: str) -> bool:
         s.close()
 
 
+def own_tcp_listeners():
+    """OS-level inventory of THIS process's listening TCP sockets: {(address text, port)} from /proc (inode match)."""
+    inodes = set()
+    for fd in os.listdir("/proc/self/fd"):
+        try:
+            link = os.readlink(f"/proc/self/fd/{fd}")
+        except OSError:
+            continue
+        if link.startswith("socket:["):
+            inodes.add(link[8:-1])
+    out = set()
+    for path, fam in (("/proc/net/tcp", socket.AF_INET), ("/proc/net/tcp6", socket.AF_INET6)):
+        try:
+            lines = open(path).read().splitlines()[1:]
+        except OSError:
+            continue
+        for line in lines:
+            f = line.split()
+            if len(f) > 9 and f[3] == "0A" and f[9] in inodes:
+                ahex, phex = f[1].split(":")
+                raw = bytes.fromhex(ahex)
+                raw = b"".join(raw[i:i + 4][::-1] for i in range(0, len(raw), 4))  # host-endian 32 bit words
+                out.add((socket.inet_ntop(fam, raw), int(phex, 16)))
+    return out
+
+
+LEAK_MECH = "tcp-listener-leaked-when-udp-bind-of-tcp+udp-mode-fails"
+
+
 async def run_history(ctx, r):
     """-> (signature, nontrivial, sample)"""
     ps = Proxyserver()
@@ -341,6 +397,48 @@ async def run_history(ctx, r):
         failed: set[int] = set()
         steps = r.randint(2, 6)
         policies_used, restarted = set(), False
+        udp_blocked: set[int] = set()
+        ever_failed: set[int] = set()
+
+        def sweep_after_step(step, ok):
+            truth, confirmed_ports = [], set()
+            for i in sorted(current - failed):
+                spec, mode, host, port = cands[i]
+                trans = ["tcp", "udp"] if mode.transport_protocol == "both" else [mode.transport_protocol]
+                if all(os_listening(RT_TRUTH_HOSTS[host][0], port, t) for t in trans):
+                    ctx.count("runtime.confirmed_listeners")
+                    confirmed_ports.add(port)
+                    for th in RT_TRUTH_HOSTS[host]:
+                        truth.append((th, port, mode.transport_protocol))
+                else:
+                    ctx.count("runtime.unconfirmed_listeners")  # e.g. the port was taken by someone else: nothing to judge
+            # this process's own listening TCP sockets per the OS, whatever mitmproxy's bookkeeping says
+            harness_ports = {c[3] for c in cands}
+            untracked = {}
+            ctx.count("runtime.os_inventory_checks")
+            for addr, port in own_tcp_listeners():
+                if port in harness_ports and port not in confirmed_ports:
+                    truth.append((addr, port, "tcp"))
+                    # history predicate: the socket belongs to a tcp+udp mode listener whose start failed in this history
+                    ever_failed.update(failed)
+                    leaked = any(c[3] == port and c[1].transport_protocol == "both" and k in ever_failed for k, c in enumerate(cands))
+                    untracked[port] = LEAK_MECH if leaked else None
+                    ctx.count("runtime.untracked_own_listener")
+            stopped_ports = {cands[i][3] for i in ever_started - current}
+            if not ok:
+                stopped_ports = set()  # a stop may have failed as well
+            extra = {"history": log[-6:], "step": step}
+            for port in sorted(confirmed_ports | stopped_ports | set(untracked)):
+                sweep = RT_SWEEP + [r.choice(ALL_SPELLINGS) for _ in range(2)]
+                lhosts = [h for h, p, _ in truth if p == port]
+                if lhosts:
+                    sweep = sweep + [("listen-echo", lhosts[0])]
+                ex = {**extra, "own_listening_socket_per_/proc_not_in_listen_addrs": True} if port in untracked else extra
+                # for a socket only known from the OS inventory the state of a UDP sibling is unknown: judge TCP only
+                for hclass, host in sweep:
+                    for transport in (("tcp",) if port in untracked else ("tcp", "udp")):
+                        judge(ctx, ps, hclass, host, port, transport, truth, pfx="runtime.", extra=ex, mech=untracked.get(port))
+
         for step in range(steps):
             # next target set
             k = r.random()
@@ -384,36 +482,33 @@ async def run_history(ctx, r):
                 current = set(target)
                 ever_started |= target
                 log.append({"modes": [cands[i][0] for i in sorted(target)], "policy": policy, "update_ok": ok})
-                # ---- sweep after this step
-                truth, confirmed_ports = [], set()
-                for i in sorted(current - failed):
-                    spec, mode, host, port = cands[i]
-                    trans = ["tcp", "udp"] if mode.transport_protocol == "both" else [mode.transport_protocol]
-                    if all(os_listening(RT_TRUTH_HOSTS[host][0], port, t) for t in trans):
-                        ctx.count("runtime.confirmed_listeners")
-                        confirmed_ports.add(port)
-                        for th in RT_TRUTH_HOSTS[host]:
-                            truth.append((th, port, mode.transport_protocol))
-                    else:
-                        ctx.count("runtime.unconfirmed_listeners")  # e.g. the port was taken by someone else: nothing to judge
-                stopped_ports = {cands[i][3] for i in ever_started - current}
-                if not ok:
-                    stopped_ports = set()  # a stop may have failed as well
-                extra = {"history": log[-6:], "step": step}
-                for port in sorted(confirmed_ports | stopped_ports):
-                    sweep = RT_SWEEP + [r.choice(ALL_SPELLINGS) for _ in range(2)]
-                    lhosts = [h for h, p, _ in truth if p == port]
-                    if lhosts:
-                        sweep = sweep + [("listen-echo", lhosts[0])]
-                    for hclass, host in sweep:
-                        for transport in ("tcp", "udp"):
-                            judge(ctx, ps, hclass, host, port, transport, truth, pfx="runtime.", extra=extra)
+                sweep_after_step(step, ok)
+        # ---- a tcp+udp listener whose UDP port is taken (by the harness): its start must fail *without* leaving a TCP listener behind
+        if r.random() < 0.5:
+            tmpl, port = r.choice(["dns", "reverse:dns://8.8.8.8", "dns"]), free_port()
+            blocker = socket.socket(socket.AF_INET, socket.SOCK_DGRAM)
+            try:
+                blocker.bind(("127.0.0.1", port))
+                spec = f"{tmpl}@127.0.0.1:{port}"
+                cands.append((spec, mode_specs.ProxyMode.parse(spec), "127.0.0.1", port))
+                idx = len(cands) - 1
+                udp_blocked.add(port)
+                for target in (current | {idx}, set(current)):
+                    ok = await ps.servers.update([cands[i][1] for i in sorted(target)])
+                    failed = (failed & target) | ((target - current) if not ok else set())
+                    current = set(target)
+                    ever_started |= target
+                    log.append({"modes": [cands[i][0] for i in sorted(target)], "policy": "udp-port-blocked-by-harness", "update_ok": ok})
+                    ctx.count("runtime.udp_blocked_start_steps")
+                    sweep_after_step(steps, ok)
+            finally:
+                blocker.close()
         await ps.servers.update([])
     ctx.count("runtime.histories")
     ctx.count("runtime.concurrent_vets", stats["concurrent"])
     kinds = tuple(sorted({(m.type_name, m.transport_protocol, h or "all") for _, m, h, _ in cands}))
-    sig = ("hist", kinds, tuple(sorted(policies_used)), steps, restarted)
-    return sig, stats["started_under_vetting"] > 0, {"leg": "runtime", "history": log[:6], "concurrent_server_connect_calls": stats["concurrent"]}
+    sig = ("hist", kinds, tuple(sorted(policies_used)), steps, restarted, bool(udp_blocked))
+    return sig, stats["started_under_vetting"] > 0, {"leg": "runtime", "history": log[:8], "concurrent_server_connect_calls": stats["concurrent"]}
 
 
 # ---- repeated attempts for the same Server object through the real ConnectionHandler ----------------------------------------
@@ -572,15 +667,16 @@ def repeat_eval(ctx, loop, w, hclass, host, port, transport, servers_spec, attem
             ctx.count("repeat.reattempt_stopped_by_handler")
         if exp is True:
             ctx.count("repeat.no_dial_for_self_address")
+            aton = ATON_MECH if hclass.startswith("aton-") else None
             if dials.calls:
-                ctx.violation("repeat:dialled-own-listener", wit, mechanism=None)
+                ctx.violation("repeat:dialled-own-listener", wit, mechanism=aton)
             ctx.count("repeat.first_attempt_refused")
             if not results or not results[0] or "destination unknown" not in results[0].lower():
                 ctx.violation("repeat:first-attempt-not-refused", wit, mechanism=classify(hclass, host, listeners, transport, port))
             if any(x is None for x in results):
                 ctx.violation("repeat:attempt-succeeded-for-self-address", wit)
             if path == "direct" and any(not x or "destination unknown" not in x.lower() for x in results):
-                ctx.violation("repeat:later-attempt-not-refused", wit)
+                ctx.violation("repeat:later-attempt-not-refused", wit, mechanism=aton)
         elif exp is False:
             ctx.count("repeat.non_self_dialled")
             if not dials.calls or (results and results[0] and "destination unknown" in results[0].lower()):
@@ -627,6 +723,25 @@ def _run(ctx, loop):
     else:
         rep_items = list(itertools.product(range(len(ALL_SPELLINGS)), lkeys, LISTENER_MODES, ("tcp", "udp")))
     n_rep = len(rep_items)
+    # several listeners sharing one port number on different addresses (one per interface / address family), every order
+    mkeys = ["127.0.0.1", "192.0.2.5", "2001:db8::5", "all(dual)", "::1", "fe80::1%eth0", "127.0.0.2"]
+    mhosts = [x for x in ALL_SPELLINGS if x[0] == "listen-echo"] + [("localhost-name", "localhost"), ("v4-loopback", "127.0.0.1"),
+                                                                     ("v4-loopback", "127.0.0.2"), ("v6-loopback", "::1"), ("wildcard", "0.0.0.0"),
+                                                                     ("public", "8.8.8.8"), ("public", "192.0.2.77")]
+    multi_items = [(a, b, ma, mb, h, t) for a in mkeys for b in mkeys if a != b
+                   for ma, mb in (("regular", "regular"), ("regular", "dns"), ("dns", "reverse:quic://example.com"), ("wireguard", "regular"))
+                   for h in mhosts for t in ("tcp", "udp")]
+    n_multi = len(multi_items)
+    for k in range(ctx.worker, n_multi, ctx.nworkers):
+        if ctx.only_case is not None:
+            break
+        a, b, ma, mb, (hclass, host), t = multi_items[k]
+        refd = evaluate(ctx, hclass, host, 8080, t, [(ma, a, 8080), (mb, b, 8080)])
+        ctx.count("multi_listener_same_port")
+        ctx.case(("multi", hclass, host, a, b, MODES[ma].transport_protocol, MODES[mb].transport_protocol, t), nontrivial=True,
+                 sample={"leg": "multi-listener", "host": host, "transport": t, "listeners": [[ma, a, 8080], [mb, b, 8080]], "refused": refd}
+                 if k % 911 == 7 else None)
+    ctx.extra["enumerated_multi_listener_combinations"] = n_multi
     w = OptWorld()
     try:
         _run2(ctx, loop, w, p_hist, lkeys, items, n_enum, rep_items, n_rep)
